@@ -244,6 +244,8 @@ func generate(prop, tier string, seed uint64, jl *jobList) int {
 	case "C20":
 		genC20(r, thorough, jl.addWait)
 		return 64 // real-time scenarios mostly sleep
+	case "panic":
+		genPanic(r, thorough, jl.addPanic)
 	case "pool":
 		genPool(r, thorough, shardIdx, shardCnt, jl)
 		return 1
